@@ -931,7 +931,7 @@ var expectedProbes = map[string][]string{
 	"C04": {"c04-write-accepted", "c04-write-rejected", "c04-twin-checked", "c04-protected-element-present", "c04-shape-delete-selector+partial-selector", "c04-stored-element-without-identifier", "c04c-race-checked", "c04c-write-overlapped-local-update"},
 	"C05": {"c05-mutated-message-handled", "c05-node-management-registry-call", "c05-messages-before-discovery", "c05-probe-read-answered", "c05-function-element-names-another-function", "gen-structured-selector-member", "c05-discovery-read-during-traffic"},
 	"C06": {"c06-add-and-remove-in-one-notification", "c06-remove-unknown-entity", "c06-repeated-announcement", "mirror-tree-compared", "mirror-use-cases-compared", "mirror-link-restored", "mirror-tree-change"},
-	"C07": {"goaf-calls-overlapped", "c07-discovery-reply-checked", "c07-read-overlapped-tree-change", "c07-subscription-before-discovery-reply", "c07-other-peer-unsubscribed", "c07-subscription-repeated", "c07-description-changed", "c07-reply-mixes-moments-within-an-entity"},
+	"C07": {"goaf-calls-overlapped", "c07-discovery-reply-checked", "c07-read-overlapped-tree-change", "c07-subscription-before-discovery-reply", "c07-other-peer-unsubscribed", "c07-subscription-repeated", "c07-description-changed"},
 	"C08": {"fanout-notify-to-subscriber", "reg-server-device-omitted", "duplicate-subscribe-refused", "entity-removal-names-unknown-entity-first", "c08r-payload-compared", "mirror-data-compared", "mirror-write", "c08-left-before-discovery", "reg-delete-names-other-device", "c08r-remote-write-accepted"},
 	"C09": {"bind-granted", "two-bind-requests-for-one-feature-overlapped", "reg-server-device-omitted", "reg-requested-type-differs", "reg-delete-names-other-device"},
 	"C10": {"teardown-with-state", "approval-verdict-given", "approval-left-pending", "mirror-teardown-observed", "c10-address-less-peer-removed-with-pending-write", "peers-with-prefix-related-device-addresses"},
